@@ -159,7 +159,7 @@ func TestC20(t *testing.T) {
 	rep := kit.NewReport("C20", env)
 	stopWatch = rep.StartWatchdog(env, 240*time.Second)
 	defer stopWatch.Stop()
-	rep.Rule = "configurations: universe {'', 'u'} x secret {'', 's'} x lite x stub x services {0,1} x friends {0,1} x listeners {1,2 loopback ports; IPv4 loopback, every third case IPv6 loopback} x state storage {memory, json file} x API listener {none, free loopback port} (quick: a pairwise-covering subset of 24, thorough: all 512) for a pair of real relay-only instances (second dials the first), each configuration handed over as a parsed store or written as a .yaml / .json / .yml file and read by the real loader (rotating over cases); plus, for every sixth configuration (thorough: all), three routers on one host of which one has two connect URLs and must peer with both; histories: every well-formed word over {New, Start, Peer, Stop (sequential), Stop (both concurrently)} of up to 3 cycles from a fixed family (start-stop, start-peer-stop, construct-only, stop-without-start, double stop, and their repetitions) in one process; plus the module group alone with stub modules: all assignments of {ok, start fails, stop fails, worker never ends} to 4 modules with at most 2 faults (virtual time): every started module stopped once in reverse order, managers cancelled, result reports the failure; observed: panics/errors of New/Start, link on both sides, return value of Stop, goroutine count back to the pre-New baseline after every cycle; non-trivial = every case (each has >= 1 full cycle); distinct = distinct (configuration, history)"
+	rep.Rule = "configurations: universe {'', 'u'} x secret {'', 's'} x lite x stub x services {0,1} x friends {0,1} x listeners {1,2 loopback ports; IPv4 loopback, every third case IPv6 loopback} x state storage {memory, json file} x API listener {none, free loopback port} (quick: a pairwise-covering subset of 24, thorough: all 512) for a pair of real relay-only instances (second dials the first), each configuration handed over as a parsed store or written as a .yaml / .json / .yml file and read by the real loader (rotating over cases); plus, for every sixth configuration (thorough: all), three routers on one host of which one has two connect URLs and must peer with both; histories: every well-formed word over {New, Start, Peer, Stop (sequential), Stop (both concurrently), Stop of one router while its peer keeps sending it frames} of up to 3 cycles from a fixed family (start-stop, start-peer-stop, construct-only, stop-without-start, double stop, and their repetitions) in one process; plus the module group alone with stub modules: all assignments of {ok, start fails, stop fails, worker never ends} to 4 modules with at most 2 faults (virtual time): every started module stopped once in reverse order, managers cancelled, result reports the failure; observed: panics/errors of New/Start, link on both sides, return value of Stop, goroutine count back to the pre-New baseline after every cycle; non-trivial = every case (each has >= 1 full cycle); distinct = distinct (configuration, history)"
 	rep.Assumptions = []string{
 		"this check runs on real loopback TCP in real time: goroutine schedules are NOT controlled; the property is quantified over configurations and histories only, which are enumerated exhaustively",
 		"waiting uses monotone conditions polled under a 30 s ceiling; no short wall-clock oracle is used",
@@ -202,6 +202,7 @@ func TestC20(t *testing.T) {
 		{"N", "S", "P", "X"},
 		{"N", "X", "N", "S", "P", "X", "X"},
 		{"N", "S", "P", "C"},
+		{"N", "S", "P", "L"},
 	}
 	if env.Thorough() {
 		histories = append(histories, history{"N", "S", "X"}, history{"N", "S", "P", "X", "N", "S", "P", "X", "N", "S", "P", "X"},
@@ -332,6 +333,45 @@ func TestC20(t *testing.T) {
 					}
 					if ok && !waitFor(func() bool { runtime.Gosched(); return runtime.NumGoroutine() <= base }, 15*time.Second) {
 						fail("goroutines-left-running", fmt.Sprintf("after concurrent Stop %d goroutines run, baseline before New was %d: %s", runtime.NumGoroutine(), base, goroutineSummary()))
+					}
+				case "L":
+					// A stops while its peer keeps talking to it: frames keep arriving on the link
+					// during the whole stop sequence (after the router and the switch have ended,
+					// before the link is closed). Then B stops.
+					done := make(chan struct{})
+					flooded := make(chan int, 1)
+					go func() {
+						n := 0
+						for {
+							select {
+							case <-done:
+								flooded <- n
+								return
+							default:
+							}
+							kit.Try(func() { _, _, _ = b.Router().PingPong.Send(a.Identity().IP, true, 0) })
+							n++
+							time.Sleep(200 * time.Microsecond)
+						}
+					}()
+					for _, e := range []struct {
+						name string
+						inst *mycoria.Instance
+					}{{"A", a}, {"B", b}} {
+						var stopped bool
+						pan, pv := kit.Try(func() { guardStop(func() { stopped = e.inst.Stop() }) })
+						if pan {
+							fail("stop-under-load-panics", fmt.Sprintf("Stop of %s panicked while its peer kept sending: %v", e.name, pv))
+						} else if !stopped {
+							fail("stop-under-load-false", "Stop of "+e.name+" returned false while its peer kept sending frames (a worker did not stop)")
+						}
+						if e.name == "A" {
+							close(done)
+							rep.Outcome(fmt.Sprintf("stop-under-load/peer-sent>0=%v", <-flooded > 0))
+						}
+					}
+					if ok && !waitFor(func() bool { runtime.Gosched(); return runtime.NumGoroutine() <= base }, 15*time.Second) {
+						fail("goroutines-left-running", fmt.Sprintf("after Stop under load %d goroutines run, baseline before New was %d: %s", runtime.NumGoroutine(), base, goroutineSummary()))
 					}
 				case "X":
 					for name, inst := range map[string]*mycoria.Instance{"A": a, "B": b} {
